@@ -97,6 +97,7 @@ inductive Err
   | syntax           -- ERR syntax error
   | notFloat         -- ERR value is not a valid float / min or max is not a float
   | outOfRange       -- ERR value is out of range, must be positive
+  | notDouble        -- ERR One or more scores can't be converted into double
   deriving DecidableEq, Repr
 
 /-- element of an array reply -/
@@ -1109,6 +1110,74 @@ def execZRangeByScore (s : State) (k : Nat) (lo hi : Option Bound) (ws : Bool)
     | .found z _ => (s, .arr (zElems ws (applyLimit (z.filter (fun p => inRange lo hi p.2)) lim)))
   | _, _ => (s, .err .notFloat)
 
+/-! ## SORT key [STORE dst]
+
+Only the form the parser of /repo can produce (`Command::Sort { key, store }`: every other option
+is ignored by that parser) — i.e. Redis' default: ascending, NUMERIC.  sortCommand (sort.c):
+the source may be a list, a set or a sorted set (its members), anything else is WRONGTYPE; every
+element is converted with strtod — one failure and the reply is "One or more scores can't be
+converted into double", nothing is stored; equal values are ordered by their bytes; STORE writes
+the result as a list (no deadline; an empty result deletes the destination) and replies its
+length.  The numeric reading is restricted to integers (strtod's integer syntax: leading white
+space, optional sign, digits; the empty string is 0); floats / hex / inf are outside the model. -/
+
+/-- bytes of a key code (inverse of `Driver.keyCode`; fuel = the code itself) -/
+def codeBytesAux : Nat → Nat → BS → BS
+  | 0, _, acc => acc
+  | fuel + 1, n, acc => if n ≤ 1 then acc else codeBytesAux fuel (n / 256) ((n % 256) :: acc)
+
+def codeBytes (c : Nat) : BS := codeBytesAux c c []
+
+def isSpaceByte (c : Nat) : Bool := c == 32 || (decide (9 ≤ c) && decide (c ≤ 13))
+
+def unsignedVal (ds : BS) : Option Nat :=
+  match ds with
+  | [] => none
+  | _ :: _ => digitsVal ds 0
+
+/-- strtod on the integer syntax; `none` = not convertible -/
+def sortNum (b : BS) : Option Int :=
+  match b with
+  | [] => some 0
+  | _ :: _ =>
+    match b.dropWhile isSpaceByte with
+    | 45 :: ds => (unsignedVal ds).map (fun n => -(n : Int))
+    | 43 :: ds => (unsignedVal ds).map (fun n => (n : Int))
+    | ds => (unsignedVal ds).map (fun n => (n : Int))
+
+/-- SORT order: by numeric value, ties by bytes -/
+def sortLt (a b : BS) : Bool :=
+  match sortNum a, sortNum b with
+  | some x, some y => decide (x < y) || (x == y && bsLt a b)
+  | _, _ => bsLt a b
+
+def sortInsert (x : BS) : List BS → List BS
+  | [] => [x]
+  | y :: ys => if sortLt y x then y :: sortInsert x ys else x :: y :: ys
+
+def sortAll (l : List BS) : List BS := l.foldr sortInsert []
+
+/-- the elements SORT works on; `none` = WRONGTYPE -/
+def sortSource (s : State) (k : Nat) : Option (List BS) :=
+  match NMap.get s k with
+  | none => some []
+  | some e =>
+    match e.val with
+    | .list l => some l
+    | .set m => some (m.map (fun p => codeBytes p.1))
+    | .zset z => some (z.map (fun p => p.1))
+    | _ => none
+
+def execSort (s : State) (k : Nat) (store : Option Nat) : State × Reply :=
+  match sortSource s k with
+  | none => (s, .err .wrongType)
+  | some es =>
+    if es.any (fun e => (sortNum e).isNone) then (s, .err .notDouble)
+    else
+      match store with
+      | none => (s, .arr ((sortAll es).map Elem.bulk))
+      | some d => (putList s d (sortAll es) none, .int (sortAll es).length)
+
 /-! ## commands -/
 
 inductive Cmd
@@ -1191,6 +1260,7 @@ inductive Cmd
   | zcard (k : Nat)
   | zcount (k : Nat) (lo hi : Option Bound)
   | zrangebyscore (k : Nat) (lo hi : Option Bound) (ws : Bool) (lim : Option (Int × Nat))
+  | sort (k : Nat) (store : Option Nat)
   deriving Repr
 
 /-- execute on a state that holds no dead entry -/
@@ -1267,6 +1337,7 @@ def exec (s : State) (now : Nat) : Cmd → State × Reply
   | .zcard k => execZCard s k
   | .zcount k lo hi => execZCount s k lo hi
   | .zrangebyscore k lo hi ws lim => execZRangeByScore s k lo hi ws lim
+  | .sort k st => execSort s k st
 
 /-- one command at instant `now` -/
 def step (s : State) (now : Nat) (c : Cmd) : State × Reply := exec (purge s now) now c
